@@ -72,3 +72,22 @@ CLAIMS['C15'] = dict(technique=GOCV,
        "(call-site precondition hashOf(value)==key), so Inv is preserved on every path and hence after every request history including evictions; a hash-only request either fails with PersistedQueryNotFound or continues with exactly the cached text whose hash is the requested one; "
        "a mismatching text+hash request returns an error, adds nothing and leaves the query unchanged; requests without the extension touch nothing.",
   note=COMMON_NOTE + "SHA-256/hex trusted (collision resistance assumed); Cache implementations may forget but never invent entries; mapstructure trusted. That a rejected request executes nothing is the C03 gate.")
+
+CLAIMS['C16'] = dict(technique=GOCV,
+  text="Construction-site contracts on graphql/introspection: at every append/assignment that builds an introspection element the stored name, description, type wrapper, default value and DEPRECATION equal those of the schema element the loop is at "
+       "(each argument's own arg.Directives.ForName(\"deprecated\"), not the field's), elements are produced in schema order with exactly the documented skips (ghost count of eligible fields = output length, loop invariants), "
+       "WrapTypeFromDef/WrapTypeFromType/defaultValue/IsDeprecated are exact. The disabled-introspection gate lives in generated code and is covered by the probe-proved family contract when listed in the evidence.",
+  note=COMMON_NOTE + "gqlparser lookups trusted pure; Schema.Types/Directives ordering (sort) and Value.String not decided; the whole round trip 'schema can be rebuilt' is not a per-function contract.")
+
+CLAIMS['C01'] = dict(technique=GOCV,
+  text="Runtime mechanisms of execution semantics as contracts on the real graphql/ code: shouldIncludeNode == !skip && include; instanceOf/equalPath with quantified loop invariants; collectFields only groups fields that passed @skip/@include and creates "
+       "collected fields with NO selections (so merging never writes into the parsed, possibly cached, document); FieldContext.Path returns freshly allocated storage (frame: no pre-existing location written) so sibling paths cannot alias; "
+       "AddError records exactly one presented error for a non-nil error; HasFieldError is the existential over recorded paths; Array/FieldSet writers emit entries in order with correct separators. "
+       "Generated field/object/list functions are covered by probe-proved family contracts when listed in the evidence.",
+  note=COMMON_NOTE + "Partial by design (DESIGN.md C01): equivalence with the whole execution algorithm and all schemas other than the probes are not decided.")
+
+CLAIMS['C06'] = dict(technique=GOCV,
+  text="Narrow, sequential facts only (schedules and races are not decidable in this family): codegen marks exactly the schema's mutation root (by identity, whatever its name) as concurrency-disabled and Field.IsConcurrent is false for such objects; "
+       "collectFields' creator yields collected fields with no selections, so concurrent branches never share (and append into) AST storage; Path() allocates fresh storage. "
+       "The generated _Mutation executor (no FieldSet.Concurrently reachable) is covered by the probe-proved family contract when listed in the evidence.",
+  note=COMMON_NOTE + "No thread model: determinism under interleavings and data-race freedom are NOT decided.")
